@@ -1,6 +1,7 @@
 import PsV.Proofs.Glam
 import PsV.Proofs.GlamCont
 import PsV.Proofs.GlamIdx
+import PsV.Proofs.GlamListed
 import PsV.Props.C01
 /-!
 # C17 — grid evaluation is the tensor-product B-spline sum, computed by mode products
@@ -267,6 +268,45 @@ theorem grideval_int_arith_exact (dims : List (Dim α)) (coef : Int → α) (coo
     · rw [coefTensor_eq]; simp
     · rw [coefTensor_eq]; exact hsafe
 
+/-! ## 7. the `slicemultiply` chain as one flat sum, and the set of listed grid points
+
+CHOLMOD's `triplet_to_sparse` / `ssmult` / `sparse_to_triplet` are modelled by their meaning (section 2).
+Section 3 identifies the chain of mode products with the nested sum `specSum`; here it is the flat
+n-dimensional tensor-product sum over every stored coefficient, and the *pattern* of the result (which
+grid indices are listed at all — what the tie compares exactly with the code) is characterised too. -/
+
+/-- **The chain of `slicemultiply` calls is the tensor-product evaluation sum**, any number of
+dimensions: the value stored at grid index `g` is `Σ_q coef[q] · Π_d B_d(digit_d(q), x_d)` over all
+`Π naxes` stored coefficients (`digits` = the row-major index tuple of position `q`). -/
+theorem grideval_get_eq_flat_sum (dims : List (Dim α)) (coef : Int → α) (coords : List (List α))
+    (hwf : GridTableWF dims) (hlen : coords.length = dims.length) :
+    ∃ nd, gridEval dims coef coords = some nd ∧
+      ∀ g xs, gridPoint coords g = some xs →
+        nd.get g = ∑ q ∈ Finset.range (PsV.Permute.prodL (dims.map (·.naxes))),
+          coef (q : Int) * basisProd dims xs (PsV.Permute.digits (dims.map (·.naxes)) q) := by
+  obtain ⟨nd, h1, h2, _, h4⟩ := grideval_eq_spec dims coef coords hwf hlen
+  refine ⟨nd, h1, fun g xs hg => ?_⟩
+  have hx : xs.length = dims.length := by rw [gridPoint_length coords g xs hg, hlen]
+  rw [h4 g xs hg, gridSpec_flat dims coef xs hwf.ne hwf.strides hx]
+
+/-- **Pattern of `slicemultiply`** (the symbolic product of `ssmult`): the result lists `idx` iff some
+listed entry `e` of `a` agrees with `idx` off `dim` and `b[e_dim, idx_dim]` is non-zero (stored). -/
+theorem slice_lists_iff (a : NdSparse α) (b : Mat α) (dim : Nat) (ha : a.WF) (hd : dim < a.ranges.length)
+    (a' : NdSparse α) (h : sliceMultiply a b dim = some a') (idx : List Nat) :
+    a'.Lists idx ↔ ∃ e, a.Lists e ∧ ∃ g, g < b.ncol ∧ b.val (e.getD dim 0) g ≠ 0 ∧ idx = e.set dim g :=
+  slice_lists_iff' a b dim ha hd a' h idx
+
+/-- **Which grid points `grideval` lists**: exactly those where the tensor-product sum has a non-zero
+term — some stored coefficient `coef[pos c] ≠ 0` whose basis product `Π_d B_d(c_d, x_d)` is non-zero.
+(With `get_of_not_listed`: every other grid point has value zero, and is not listed.) -/
+theorem grideval_lists_iff (dims : List (Dim α)) (coef : Int → α) (coords : List (List α))
+    (hwf : GridTableWF dims) (hlen : coords.length = dims.length) :
+    ∃ nd, gridEval dims coef coords = some nd ∧
+      ∀ g xs, gridPoint coords g = some xs →
+        (nd.Lists g ↔ ∃ c, IdxIn c (dims.map (·.naxes)) ∧
+          coef (posL dims c : Nat) * basisProd dims xs c ≠ 0) :=
+  gridEval_lists dims coef coords hwf hlen
+
 end
 
 /-- Non-vacuity: a 2×3×2 tensor over `Rat` with two entries, a 3×4 matrix, `dim = 1`. -/
@@ -451,5 +491,17 @@ example :
     unflattenIdxC [3,7,2] 1 6 5 = .ok [2,6,1] ∧ sliceIdxSafe [3,4,2] 1 7 = true ∧
     gridIdxSafe [4,2] 0 [3,1] = true := by
   refine ⟨⟨rfl, by decide⟩, by decide, by decide, by rfl, by decide, by decide⟩
+
+/-- Non-vacuity of section 7 (`grideval_get_eq_flat_sum`, `grideval_lists_iff`; `slice_lists_iff` shares
+the hypotheses of `slice_is_mode_product`, see the first example): `degTable` on the one-point grid
+`x = 2`; the grid index `[0]` is listed because coefficient `c = [2]` (value 7) has basis value 1 there. -/
+example :
+    GridTableWF degTable.dims ∧ ([[2]] : List (List Rat)).length = degTable.dims.length ∧
+    gridPoint ([[2]] : List (List Rat)) [0] = some [2] ∧
+    ∃ c, IdxIn c (degTable.dims.map (·.naxes)) ∧
+      degTable.coef (posL degTable.dims c : Nat) * basisProd degTable.dims [2] c ≠ 0 := by
+  refine ⟨degTable_gridWF, rfl, rfl, [2], ⟨rfl, by decide⟩, ?_⟩
+  simp [basisProd, posL, degTable, PsV.Bind, indR]
+  norm_num
 
 end PsV
